@@ -127,7 +127,7 @@ def run(tier):
     # normalises to another form, or a mapping rule that is not per-character, changes what can come out
     profiles.normalizer_shape(prog, rep, "normalization_form_nfc", "nfc")
     profiles.normalizer_shape(prog, rep, "normalization_form_nfkc", "nfkc")
-    profiles.include_leaves(rep, [("C13", "fixed point returned by stabilize"), ("C10", "case mapping"), ("C11", "width mapping"), ("C12", "space rules")])
+    profiles.include_leaves(rep, [("C13", "fixed point returned by stabilize"), ("C10", "case mapping"), ("C11", "width mapping"), ("C12", "space rules"), ("C02", "the validation itself: StringClass::allows judges every character of the string")])
     rep.not_decided += [
         "whether char::to_lowercase / NFC / NFKC (library Unicode data) can map a 6.3.0-valid character to a DISALLOWED or UNASSIGNED one",
         "idempotence of width→case→NFC→… on every string (library data)",
